@@ -219,3 +219,33 @@ Definition rmeasure (C : res) : nat :=
    + sum (map lmeasure (ls (rb C))) + List.length (rpend C))%nat.
 
 Definition all_cancelled (C : res) : bool := forallb l_cancel (ls (rb C)).
+
+(* ---- the turnstile must be left on EVERY way out of a call (round 4) ----
+   [rstep] leaves in RReturn whatever the result of the Send: delivered everywhere, listener
+   cancelled, or given up because the send context expired (Value.Set's 5 s budget: LCancelSend,
+   then LSelSendCtx; the result false is the head of s_rets).  [rstep_leaky] is the variant in which
+   the leave is an explicit call placed after the "bus.Send blocked for too long" early return: a
+   writer whose Send gave up returns WITHOUT leaving.  ResTurnstile.v refutes it. *)
+Definition last_send_gave_up (c : config) (w : nat) : bool :=
+  match nth_error (ss c) w with
+  | Some X => match s_rets X with false :: _ => true | _ => false end
+  | None => false
+  end.
+
+Definition rstep_leaky (C : res) (a : rlabel) : option res :=
+  match a with
+  | RReturn w =>
+      match rstep true C a with
+      | Some C' => if last_send_gave_up (rb C) w
+                   then Some (mkR (rb C') (rw C') (rcommits C') (rdone C) (rpend C'))
+                   else Some C'
+      | None => None
+      end
+  | _ => rstep true C a
+  end.
+
+Fixpoint rrun_leaky (C : res) (tr : list rlabel) : option res :=
+  match tr with
+  | [] => Some C
+  | a :: r => match rstep_leaky C a with Some C' => rrun_leaky C' r | None => None end
+  end.
